@@ -20,7 +20,7 @@ def reject {α} (msg : String) : M α := .error (.reject msg)
 def gopanic {α} (msg : String) : M α := .error (.panic msg)
 
 /-- `big.Int.BitLen() > 256`, i.e. `|i| ≥ 2^256`. -/
-def intOverflows (i : Int) : Bool := i.natAbs ≥ 2 ^ 256
+def intOverflows (i : Int) : Bool := i.natAbs ≥ 115792089237316195423570985008687907853269984665640564039457584007913129639936  -- 2^256, written out (see `Hub.SDK.two_pow_256`)
 
 abbrev SInt := Int
 
@@ -39,7 +39,7 @@ abbrev Dec := Int
 
 def decUnit : Int := 10 ^ 18
 /-- `maxDecBitLen = 256 + 59`. -/
-def decOverflows (i : Int) : Bool := i.natAbs ≥ 2 ^ 315
+def decOverflows (i : Int) : Bool := i.natAbs ≥ 66749594872528440074844428317798503581334516323645399060845050244444366430645017188217565216768  -- 2^315
 
 namespace Dec
 def ofInt (i : SInt) : Dec := i * decUnit
@@ -68,7 +68,7 @@ def ceil (d : Dec) : M Dec :=
   let q := Int.tdiv d decUnit
   let r := Int.tmod d decUnit
   if r ≤ 0 then pure (q * decUnit)
-  else if d.natAbs ≥ 2 ^ 314 then gopanic "Int overflow"   -- BitLen() >= maxDecBitLen
+  else if d.natAbs ≥ 33374797436264220037422214158899251790667258161822699530422525122222183215322508594108782608384 then gopanic "Int overflow"   -- BitLen() >= maxDecBitLen
   else pure ((q + 1) * decUnit)
 
 def truncateInt (d : Dec) : M SInt :=
@@ -79,5 +79,13 @@ def roundInt (d : Dec) : M SInt :=
   let q := chopRound d
   if intOverflows q then gopanic "NewIntFromBigInt() out of bound" else pure q
 end Dec
+
+
+/-- The written-out bounds are the powers of two they stand for. -/
+theorem two_pow_256 : (2 : Nat) ^ 256 = 115792089237316195423570985008687907853269984665640564039457584007913129639936 := by decide
+set_option exponentiation.threshold 400 in
+theorem two_pow_315 : (2 : Nat) ^ 315 = 66749594872528440074844428317798503581334516323645399060845050244444366430645017188217565216768 := by decide
+set_option exponentiation.threshold 400 in
+theorem two_pow_314 : (2 : Nat) ^ 314 = 33374797436264220037422214158899251790667258161822699530422525122222183215322508594108782608384 := by decide
 
 end Hub.SDK
